@@ -15,7 +15,7 @@ def gen_streamer(rng, opts):
 
 
 def gen_config(rng):
-    kind = rng.choices(["hwpe_mult", "alu", "gemmx", "xdma", "phs", "gemmini"], [2, 4, 4, 3, 3, 3])[0]
+    kind = rng.choices(["hwpe_mult", "alu", "gemmx", "xdma", "phs", "gemmini", "synth2", "synth4"], [2, 4, 4, 3, 3, 3, 1, 1])[0]
     cfg = {"kind": kind}
     if kind == "alu":
         cfg["streamers"] = [gen_streamer(rng, REG_OPTS) for _ in range(rng.randint(1, 6))]
@@ -80,6 +80,27 @@ def build(cfg):
         from snaxc.accelerators.snax_xdma import SNAXXDMAAccelerator
 
         return SNAXXDMAAccelerator(sc(StreamerSystemType.DmaExt))
+    if k in ("synth2", "synth4"):
+        # barrier styles 2 and 4 are used by no accelerator class of the repo: exercised through a synthetic accelerator
+        # that only combines the repo's SNAXAccelerator lowering with the repo's SNAXPollingBarrier2 / 4 await lowering
+        from snaxc.accelerators.snax import SNAXAccelerator, SNAXPollingBarrier2, SNAXPollingBarrier4
+        from snaxc.dialects import accfg
+
+        base = SNAXPollingBarrier2 if k == "synth2" else SNAXPollingBarrier4
+
+        class Synth(SNAXAccelerator, base):
+            name = k
+            fields = ("A", "B", "C", "D")
+            launch_fields = ("launch_a", "launch_b") if k == "synth4" else ("launch_a",)
+
+            def generate_acc_op(self):
+                lf = {n: 0x3D0 + i for i, n in enumerate(self.launch_fields)}
+                return accfg.AcceleratorOp(self.name, {"A": 0x3C0, "B": 0x3C1, "C": 0x3C2, "D": 0x3C3}, lf, 0x3DF)
+
+            def convert_to_acc_ops(self, op):
+                return []
+
+        return Synth()
     if k == "phs":
         from xdsl.dialects.builtin import StringAttr
 
